@@ -43,6 +43,10 @@ RULE = ("synthetic disparity maps, values multiples of 1/4 in [-8, 8]; shapes fr
         "the map has an interior valid pixel whose window holds an invalid pixel or >= 2 distinct valid values; distinct "
         "by (filter, shape, parameters, case seed)")
 ASSUMES = [
+    "the reading of numpy in Lib/NpArr.v (broadcasting on trailing axes, transpose, basic indexing, nansum / nanmedian over axes (2, 3), "
+    "boolean-mask assignment, as_strided on a C-contiguous array with strides counted in elements, int() truncation, NaN = None, x / 0 = NaN) "
+    "that gives the generated code of Gen/FilterKernels.v its meaning; validated on every run by running the extracted generated code "
+    "against the real filters (generated_code_runs in the statistics)",
     "numpy primitives (as_strided sliding windows, np.array_split, np.nanmedian = middle of the sorted non-NaN values, "
     "np.nansum, boolean-mask assignment) are hand-modelled (Model/Filters.v, Lib/Blocks.v) and validated by this "
     "correspondence on every run",
@@ -441,6 +445,10 @@ def run_bilateral(ctx, model, p):
     n_gs = 2 * (win // 2 + 1) ** 2 + 1
     gs = np.asarray(f.normalized_gaussian(np.sqrt(np.arange(n_gs, dtype=np.float64)), ss), dtype=np.float64)
     gs_w = [wq(x) for x in gs.tolist()]
+    # hypothesis kernel_ok of C10_gen_bilateral_eq_weighted_mean on the Gaussian data of THIS run
+    if not (np.all(np.isfinite(gs)) and np.all(gs >= 0) and gs[0] > 0):
+        ctx.broken_obligation("bilateral_kernel_ok", f"the spatial Gaussian data of sigma_space {ss} do not satisfy kernel_ok "
+                              f"(negative, non-finite or zero weight at distance 0)")
     marg.append((9, [win, gs_w]))
     gen_run = ny * nx <= GEN_MAX_PIXELS
     if gen_run:
